@@ -204,6 +204,10 @@ func init() {
 		Rule: "explicit-state DFS over the did alphabet: Binding(account in {A,B,C,eip155 E} x did in {d1,d2} x creator x proof in {valid, stale, signed by another key, proof for the other DID replayed, malformed}), Update (every partition of the account list into remove/keep, by a bound account and by a stranger), UpdatePaymentAddress (sid and key DIDs x creator x account); registry agreement clauses in every state, binding/unbinding/payment-address step clauses on every transition; non-trivial = distinct states with at least one binding",
 		Assumptions: []string{"secp256k1 / EIP-191 signature verification is trusted", "three cosmos accounts, one eip155 account, two sid DIDs, two key DIDs"},
 		Scenarios:   func(tier string) []*engine.Scenario { return []*engine.Scenario{C17Scenario(tier)} }})
+	register(&Check{ID: "C19", Level: "model_checking", Workers: 16,
+		Rule: "explicit-state DFS from a root with two completed orders: Report(creator in {fishman F1, fishman F2, ordinary node, non-node} x accused in {S1,S2} x fault in {exact, commit matches, wrong order, wrong data id, shard of other provider, nonexistent shard, provider field mismatch, other order}), Recover(creator in {accused, other provider, fishman, ordinary node, non-node}), block advance to the 600-block penalty tick and across expiry; every recorded fault is validated against the pre-state, every report/recover step must leave balances, orders, shards, nodes and other providers' pledges byte-identical; non-trivial = distinct states with at least one fault record",
+		Assumptions: []string{"confirmation by a second fishman is unreachable in the current code (reporter comparison is always equal), so confirmed faults and the penalty settlement are not exercised; reported in DESIGN.md", "SDK modules are trusted"},
+		Scenarios:   func(tier string) []*engine.Scenario { return []*engine.Scenario{C19Scenario(tier)} }})
 	reg("C13", true, nil)
 	reg("C11", true, nil)
 	reg("C12", true, nil)
